@@ -127,8 +127,9 @@ type Out struct {
 	Err     string `json:"err,omitempty"`
 	Val     any    `json:"val,omitempty"`
 	Tag     string `json:"tag,omitempty"`
-	Called  bool   `json:"called"`         // the installed request validator ran
-	Fail    string `json:"fail,omitempty"` // executor problem (bad case), not an observation
+	Called  bool   `json:"called"`          // the installed request validator ran
+	Alias   string `json:"alias,omitempty"` // two positions of the target share one pointer
+	Fail    string `json:"fail,omitempty"`  // executor problem (bad case), not an observation
 	Steps   []Out  `json:"steps,omitempty"`
 }
 
@@ -353,6 +354,62 @@ func dump(v reflect.Value) any {
 	default:
 		return map[string]any{"unknown": v.Kind().String()}
 	}
+}
+
+// aliased walks the target and reports the first pointer (or map / slice backing store) that two
+// different positions share: every position of a decoded value owns what it points to.
+func aliased(v reflect.Value, path string, seen map[uintptr]string) string {
+	switch v.Kind() {
+	case reflect.Ptr:
+		if v.IsNil() {
+			return ""
+		}
+		if v.Elem().Type().Size() > 0 {
+			p := v.Pointer()
+			if q, ok := seen[p]; ok {
+				return q + " and " + path + " share one pointer"
+			}
+			seen[p] = path
+		}
+		return aliased(v.Elem(), path+"*", seen)
+	case reflect.Slice:
+		if v.IsNil() {
+			return ""
+		}
+		if v.Len() > 0 && v.Type().Elem().Size() > 0 {
+			p := v.Pointer()
+			if q, ok := seen[p]; ok {
+				return q + " and " + path + " share one backing array"
+			}
+			seen[p] = path
+		}
+		for i := 0; i < v.Len(); i++ {
+			if a := aliased(v.Index(i), fmt.Sprintf("%s[%d]", path, i), seen); a != "" {
+				return a
+			}
+		}
+	case reflect.Map:
+		if v.IsNil() {
+			return ""
+		}
+		p := v.Pointer()
+		if q, ok := seen[p]; ok {
+			return q + " and " + path + " share one map"
+		}
+		seen[p] = path
+		for _, k := range v.MapKeys() {
+			if a := aliased(v.MapIndex(k), fmt.Sprintf("%s[%s]", path, k.String()), seen); a != "" {
+				return a
+			}
+		}
+	case reflect.Struct:
+		for i := 0; i < v.NumField(); i++ {
+			if a := aliased(v.Field(i), fmt.Sprintf("%s.%d", path, i), seen); a != "" {
+				return a
+			}
+		}
+	}
+	return ""
 }
 
 func native(kind, lit string) (any, error) {
@@ -881,6 +938,7 @@ func runCase(c Case) (out Out) {
 		}
 		out.Verdict = "ok"
 		out.Val = dump(target.Elem())
+		out.Alias = aliased(target.Elem(), "", map[uintptr]string{})
 	}()
 	if c.Static == "self" {
 		out.Called = selfCalls > selfBefore
